@@ -17,6 +17,8 @@
  *                                  u<k>preend in the further utterances)
  *   json <level>:<start> ...       after every alignment request also call decoder_result_json(d, start, level) for each
  *                                  pair (start = C99 hex float, passed to the library bit for bit)
+ *   regram <kind> <hex> [<hex2>]   (D130) after the final request of the last utterance call a grammar-setting function /
+ *                                  add_word(update) WITHOUT decoder_start_utt and request again (see do_regram)
  *   run
  *
  * At start the harness prints the acoustic-model tables the Lean model needs (MODEL .. ENDMODEL).
@@ -476,6 +478,38 @@ static void synth(const char *id, uint64_t seed, int kind, int T, int nw, char *
 /* the JSON observation point of the hierarchy: decoder_result_json(d, start, level) for every requested pair.
  * Called last in a request: decoder_result_json calls decoder_alignment itself, which may rebuild (and free) the
  * alignment object dumped above. */
+/* D130 family (directive `regram <kind> <hex> [<hex2>]`, up to 8): after the final request of the last utterance, WITHOUT a
+ * decoder_start_utt, call decoder_set_align_text (kind text) / decoder_set_jsgf_string (jsgf) / decoder_set_fsg on a
+ * linear word graph built here (fsg) / decoder_add_word(word, phones, update = 1) (addword); then request an alignment
+ * again: tag [u<k>]r<i>swapped when the call was accepted (the search was replaced or re-initialised), [u<k>]r<i>refused
+ * when it returned an error (nothing may have changed).  The block gets a line
+ *   RG <kind> <rv> <hyp 0/1> <seg 0/1>     return value, decoder_hyp != NULL, decoder_seg_iter != NULL after the call */
+static struct { char kind[16]; char *arg, *arg2; } regram[8];
+static int nregram;
+static char rgline[128];
+
+static int do_regram(int k)
+{
+    int rv = -1;
+    if (!strcmp(regram[k].kind, "text")) rv = decoder_set_align_text(d, regram[k].arg);
+    else if (!strcmp(regram[k].kind, "jsgf")) rv = decoder_set_jsgf_string(d, regram[k].arg);
+    else if (!strcmp(regram[k].kind, "addword"))
+        rv = decoder_add_word(d, regram[k].arg, regram[k].arg2 ? regram[k].arg2 : "", 1) >= 0 ? 0 : -1;
+    else if (!strcmp(regram[k].kind, "fsg")) {
+        char *buf = strdup(regram[k].arg), *tok, *save = NULL, *ws[64];
+        int nw = 0, i;
+        fsg_model_t *fsg;
+        for (tok = strtok_r(buf, " ", &save); tok && nw < 64; tok = strtok_r(NULL, " ", &save)) ws[nw++] = tok;
+        fsg = fsg_model_init("regram", d->lmath, config_float(d->config, "lw"), nw + 1);
+        for (i = 0; i < nw; i++) fsg_model_trans_add(fsg, i, i + 1, 0, fsg_model_word_add(fsg, ws[i]));
+        fsg->start_state = 0;
+        fsg->final_state = nw;
+        rv = decoder_set_fsg(d, fsg); /* consumes fsg, also when it fails */
+        free(buf);
+    }
+    return rv;
+}
+
 static void json_calls(void)
 {
     int i;
@@ -505,6 +539,7 @@ static void request(const char *tag)
     printf("REQ %s %s %d %d %d\n", caseid, tag, (int)d->acmod->output_frame, (int)d->acmod->n_feat_alloc,
            (int)d->acmod->grow_feat);
     if (tmatskip) print_tpx();
+    if (rgline[0]) { printf("%s\n", rgline); rgline[0] = 0; }
     out_flush();
     nwids = 0;
     for (seg = decoder_seg_iter(d); seg; seg = seg_iter_next(seg)) {
@@ -635,6 +670,19 @@ static void run_case(void)
             if (u == 0) snprintf(tag, sizeof(tag), "final");
             else snprintf(tag, sizeof(tag), "u%dfinal", u);
             request(tag);
+            if (u == nutts) {
+                int k;
+                for (k = 0; k < nregram; k++) {
+                    int rg = do_regram(k);
+                    seg_iter_t *sg = decoder_seg_iter(d);
+                    snprintf(rgline, sizeof(rgline), "RG %s %d %d %d", regram[k].kind, rg,
+                             decoder_hyp(d, NULL) != NULL, sg != NULL);
+                    if (sg) seg_iter_free(sg);
+                    if (u == 0) snprintf(tag, sizeof(tag), "r%d%s", k, rg == 0 ? "swapped" : "refused");
+                    else snprintf(tag, sizeof(tag), "u%dr%d%s", u, k, rg == 0 ? "swapped" : "refused");
+                    request(tag);
+                }
+            }
         }
     }
     if (tmatskip) tmat_skip(0);
@@ -659,6 +707,7 @@ int main(int argc, char **argv)
             snprintf(caseid, sizeof(caseid), "%s", w[1]);
             ncfg = 0; npartial = 0; early = 0; dumpsen = 0; gkind = 0; tmatskip = 0; naddw = 0; preend = 0; njson = 0; renormprobe = 0; deadprobe = 0;
             strcpy(mode, "stream"); chunk = 4096; nchunkseq = 0; nutts = 0;
+            while (nregram > 0) { nregram--; free(regram[nregram].arg); free(regram[nregram].arg2); regram[nregram].arg2 = NULL; }
         } else if (!strcmp(w[0], "cfg") && n == 3 && ncfg < MAXCFG) {
             snprintf(cfgk[ncfg], 64, "%s", w[1]);
             snprintf(cfgv[ncfg], 128, "%s", w[2]);
@@ -679,6 +728,11 @@ int main(int argc, char **argv)
             snprintf(addw[naddw][1], 256, "%s", (char *)b);
             naddw++;
             free(a); free(b);
+        } else if (!strcmp(w[0], "regram") && (n == 3 || n == 4) && nregram < 8) {
+            snprintf(regram[nregram].kind, sizeof(regram[nregram].kind), "%s", w[1]);
+            regram[nregram].arg = (char *)vf_parse_hex(w[2], &len);
+            regram[nregram].arg2 = n == 4 ? (char *)vf_parse_hex(w[3], &len) : NULL;
+            nregram++;
         } else if (!strcmp(w[0], "mode") && n == 2) {
             snprintf(mode, sizeof(mode), "%s", w[1]);
         } else if (!strcmp(w[0], "chunkseq")) {
